@@ -58,7 +58,7 @@ func init() {
 	}
 	checks["C18"] = &CheckDef{
 		Pkgs:        []string{"./control"},
-		Harness:     []string{"control:Verif_C18_table", "control:Verif_C18_strings"},
+		Harness:     []string{"control:Verif_C18_table", "control:Verif_C18_strings", "control:Verif_C18_rerouted"},
 		MaxIter:     400,
 		Level:       "other",
 		LevelText:   "The real ControlPlane.ChooseDialTarget is executed symbolically for every combination of dial mode, outbound kind, presence of a sniffed name and what the DNS controller / real-domain cache know (symbolic booleans), and for every sniffed string up to the bound over the alphabet {1 . : [ ] a} with symbolic bytes through the real isIPLikeDomain, netip.ParseAddr, net.SplitHostPort and net.JoinHostPort; the solver discharges the decision-table and well-formedness obligations on every path.",
@@ -100,7 +100,7 @@ func init() {
 	}
 	checks["C15"] = &CheckDef{
 		Pkgs:        []string{"./component/outbound"},
-		Harness:     []string{"component/outbound/dialer:Verif_C15_min_2nodes", "component/outbound/dialer:Verif_C15_min_3nodes", "component/outbound/dialer:Verif_C15_random", "component/outbound:Verif_C15_group_select"},
+		Harness:     []string{"component/outbound/dialer:Verif_C15_min_2nodes", "component/outbound/dialer:Verif_C15_min_3nodes", "component/outbound/dialer:Verif_C15_random", "component/outbound/dialer:Verif_C15_policy_switch", "component/outbound:Verif_C15_group_select"},
 		MaxIter:     400,
 		QueryMs:     1500,
 		Level:       "other",
